@@ -23,7 +23,7 @@ type TaskPlan struct {
 // TSpec describes one task.
 type TSpec struct {
 	Dur      int    `json:"dur"`
-	MaxDelay int    `json:"max_delay"` // -1 default, 0 none, else tDelay index
+	MaxDelay int    `json:"max_delay"`      // -1 default, 0 none, else tDelay index
 	Self     string `json:"self,omitempty"` // requeue | resched | cancel | cancelsib | prio
 	SelfArg  int    `json:"self_arg,omitempty"`
 	Panic    bool   `json:"panic,omitempty"` // the first execution ends in a panic
@@ -116,30 +116,30 @@ type tOpRec struct {
 }
 
 type tExec struct {
-	Task       int
-	BeginSeq   uint64
-	BeginT     time.Duration
-	EndSeq     uint64
-	EndT       time.Duration
-	Ended      bool
-	CtxErr     bool
+	Task     int
+	BeginSeq uint64
+	BeginT   time.Duration
+	EndSeq   uint64
+	EndT     time.Duration
+	Ended    bool
+	CtxErr   bool
 }
 
 type taskState struct {
-	p     *TaskPlan
-	rc    *simkit.RunCtx
-	m     *modules.Module
-	tasks []*modules.Task
-	ops   []*tOpRec
-	execs []*tExec
+	p       *TaskPlan
+	rc      *simkit.RunCtx
+	m       *modules.Module
+	tasks   []*modules.Task
+	ops     []*tOpRec
+	execs   []*tExec
 	running []int
 	quietAt time.Duration
-	t0    time.Time
+	t0      time.Time
 	// commits: per task, the sequence numbers at which the package committed to an execution (the executing flag
 	// went up; in the same critical section the task was taken out of all queues and the schedule)
-	commits [][]uint64
+	commits  [][]uint64
 	releases [][]uint64 // ... and the sequence numbers at which the flag went down again
-	wasExec []bool
+	wasExec  []bool
 }
 
 func (s *taskState) do(task int, op string, arg int, inside bool) {
@@ -622,7 +622,6 @@ func shrinkTasks(p *TaskPlan) []any {
 	}
 	return out
 }
-
 
 // checkDirectStarts covers runs with schedule entries. There a start may legitimately bypass the queue: the
 // schedule handler starts a task directly once its maximum delay after queueing has passed. Two executions may
